@@ -77,8 +77,9 @@ type Exec struct {
 	iterMap    map[ssa.Value]Val
 	alloc0     string
 	canaryDone bool
+	probeVar   string
 	idxLog     *[]IdxT           // collector of (index, sequence) pairs read while evaluating a quantifier body
-	probe      *[]string         // collector of sequences indexed by a probe variable (see seqsOf)
+	probe      *[]SeqRef         // collector of sequences indexed by a probe variable (see seqsOf)
 	noWD       bool              // suppress well-definedness obligations (while assuming the function's own requires)
 	withQ      bool              // include raw quantified assumptions in queries (second attempt)
 	modelTerms map[string]string // names (parameters, lets) -> scalar terms whose values are asked from a model
